@@ -772,11 +772,12 @@ theorem fetchRes_asap {s : St} {t : Nat} (h : fetchRes s = .asap t) :
   split at h
   · cases h
   · rename_i u us hs
-    split at h
-    · cases h
-    · split at h
-      · cases h
-      · cases h; simp_all
+    have key : ∀ b o, PB.Gen.Tasks.fetchOut b o = .asap → b = false ∧ o = false := by decide
+    generalize hb : decide (s.now < (s.tasks u).executeAt) = b at h
+    cases hf : PB.Gen.Tasks.fetchOut b (s.tasks u).overtime <;> simp only [hf] at h <;> cases h
+    obtain ⟨h1, h2⟩ := key _ _ hf
+    subst h1; simp at hb
+    exact ⟨by simp [hs], by omega, h2⟩
 
 theorem fetchRes_run {s : St} {t : Nat} (h : fetchRes s = .run t) :
     t ∈ s.sched ∧ (s.tasks t).executeAt ≤ s.now ∧ (s.tasks t).overtime = true := by
@@ -784,11 +785,12 @@ theorem fetchRes_run {s : St} {t : Nat} (h : fetchRes s = .run t) :
   split at h
   · cases h
   · rename_i u us hs
-    split at h
-    · cases h
-    · split at h
-      · cases h; simp_all
-      · cases h
+    have key : ∀ b o, PB.Gen.Tasks.fetchOut b o = .run → b = false ∧ o = true := by decide
+    generalize hb : decide (s.now < (s.tasks u).executeAt) = b at h
+    cases hf : PB.Gen.Tasks.fetchOut b (s.tasks u).overtime <;> simp only [hf] at h <;> cases h
+    obtain ⟨h1, h2⟩ := key _ _ hf
+    subst h1; simp at hb
+    exact ⟨by simp [hs], by omega, h2⟩
 
 theorem mem_schedWith_iff (s : St) (t tm x : Nat) : x ∈ schedWith s t tm ↔ x = t ∨ x ∈ s.sched := by
   rw [mem_schedWith]
